@@ -148,13 +148,14 @@ class EnergyWorld:
             if h > 0:
                 o["wtot"][h] = wt
                 o["utok"][h] = toks
-        for u in range(1, NUSERS + 1):
+        for u in list(range(1, NUSERS + 1)) + [H_UNSTAKE, H_XFER, H_WRAP]:
             q = vm.query(self.fact, "getEnergyEntryForUser", [self.addr[u]])
             assert q.ok and len(q.out) == 1, q
             amt, upd, tot = dec_energy(q.out[0])
             v = vm.query(self.fact, "getEnergyAmountForUser", [self.addr[u]])
             assert v.ok
             o["en"][u] = [amt, upd, tot, from_top_u(v.out[0]) if v.out else 0]
+        for u in range(1, NUSERS + 1):
             qq = vm.query(self.unst, "getUnlockedTokensForUser", [self.addr[u]])
             ent = []
             if qq.ok and qq.out and qq.out[0]:
@@ -349,7 +350,7 @@ def coq_pairs(d):
 
 def coq_obs(o):
     outs = "[" + "; ".join(zlit(x) for x in o["outs"]) + "]"
-    en = "[" + "; ".join(f"({u}, ({zlit(v[0])}, {v[1]}, {v[2]}, {v[3]}))" for u, v in sorted(o["en"].items(), key=lambda kv: int(kv[0]))) + "]"
+    en = "[" + "; ".join(f"({zlit(int(u))}, ({zlit(v[0])}, {v[1]}, {v[2]}, {v[3]}))" for u, v in sorted(o["en"].items(), key=lambda kv: int(kv[0]))) + "]"
     return (f"mkObs {'true' if o['ok'] else 'false'} {outs} {o['now']} {en} {coq_triples(o['hold'])} "
             f"{coq_pairs(o['tot'])} {coq_triples(o['whold'])} {coq_pairs(o['wtot'])}")
 
